@@ -71,7 +71,8 @@ ApplySO(st, op) ==
          IF i < 0 \/ i > n THEN Bad
          ELSE IF i = n THEN Good([schema |-> FALSE, el |-> Append(st.el, op.v)], NORET)
          ELSE Good([schema |-> FALSE, el |-> [st.el EXCEPT ![i + 1] = op.v]], NORET)
-    [] op.o \in {"setbad", "setbadobj", "appendbad"} -> Bad      \* a value the component type cannot take
+    [] op.o \in {"setbad", "setbadobj", "appendbad", "setslicebad"} -> Bad   \* a value the component type cannot take; a slice
+                                                                             \* assignment with one such member is refused as a whole
     [] op.o = "append" -> Good([schema |-> FALSE, el |-> Append(st.el, op.v)], NORET)
     [] op.o = "extend" -> Good([schema |-> FALSE, el |-> st.el \o <<op.v, op.v + 1>>], NORET)
     [] op.o = "clear" -> Good([schema |-> FALSE, el |-> <<>>], NORET)
